@@ -163,3 +163,49 @@ Definition json_manifest (m : manifest) : str :=
               match m_subject m with Some sj => [field "subject" (json_desc sj)] | None => [] end ++
               opt_field (nonempty (m_ann m)) (field "annotations" (json_ann (m_ann m))))
   end.
+
+(* ---------- reading a JSON string back (encoding/json unquote, on what json_esc can produce) ---------- *)
+Definition unhex (c : N) : option N :=
+  if in_rng 48 57 c then Some (c - 48)
+  else if in_rng 97 102 c then Some (c - 87)
+  else if in_rng 65 70 c then Some (c - 55) else None.
+
+(* UTF-8 of a code point of the basic multilingual plane *)
+Definition utf8_enc (cp : N) : str :=
+  if cp <? 128 then [cp]
+  else if cp <? 2048 then [192 + cp / 64; 128 + cp mod 64]
+  else [224 + cp / 4096; 128 + (cp / 64) mod 64; 128 + cp mod 64].
+
+Definition simple_esc (e : N) : option N :=
+  if (e =? 34) || (e =? 92) || (e =? 47) then Some e
+  else if e =? 98 then Some 8 else if e =? 102 then Some 12 else if e =? 110 then Some 10
+  else if e =? 114 then Some 13 else if e =? 116 then Some 9 else None.
+
+(* None = not a JSON string body *)
+Fixpoint json_unesc (s : str) : option str :=
+  match s with
+  | [] => Some []
+  | c :: r =>
+    if c =? 92 then
+      match r with
+      | [] => None
+      | e :: r' =>
+        if e =? 117 then
+          match r' with
+          | h1 :: h2 :: h3 :: h4 :: r'' =>
+            match unhex h1, unhex h2, unhex h3, unhex h4 with
+            | Some a, Some b', Some c', Some d =>
+              option_map (app (utf8_enc (((a * 16 + b') * 16 + c') * 16 + d))) (json_unesc r'')
+            | _, _, _, _ => None
+            end
+          | _ => None
+          end
+        else
+          match simple_esc e with
+          | Some x => option_map (cons x) (json_unesc r')
+          | None => None
+          end
+      end
+    else if (c =? 34) || (c <? 32) then None
+    else option_map (cons c) (json_unesc r)
+  end.
